@@ -115,21 +115,22 @@ Proof.
 Qed.
 Print Assumptions C03_moveaxis_upto_dim5_partial.
 
-(* moveaxis with ONE source and ONE destination axis (the form moveaxis(a, s, d), negative
-   spellings included), sources of EVERY dimension and any extents: the axis order the library
-   builds is NumPy's, it is a permutation, shape and element are NumPy's and the index stays inside
-   the source.  Direct proof (no sweep): the library shifts s into  rest ++ [0]  at position d. *)
-Theorem C03_moveaxis_single_axis : forall (a b : Z) s i,
-  np_moveaxis_ok (length s) (AxOne a) (AxOne b) = true ->
-  let order := np_moveaxis_order (length s) (AxOne a) (AxOne b) in
-  moveaxis_to_transpose (zlen s) (AxOne a) (AxOne b) = Some order /\ is_permb (length s) order = true
+(* moveaxis with ONE source and ONE destination axis (the form moveaxis(a, s, d), or one-element
+   axis lists; negative spellings included), sources of EVERY dimension and any extents: the axis
+   order the library builds is NumPy's, it is a permutation, shape and element are NumPy's and the
+   index stays inside the source.  Direct proof (no sweep): the library shifts s into
+   rest ++ [0]  at position d. *)
+Theorem C03_moveaxis_single_axis : forall sa da s i, length (axes_of sa) = 1%nat ->
+  np_moveaxis_ok (length s) sa da = true ->
+  let order := np_moveaxis_order (length s) sa da in
+  moveaxis_to_transpose (zlen s) sa da = Some order /\ is_permb (length s) order = true
   /\ (inb i (np_transpose_shape s (Some order)) ->
-       moveaxis_accept (AxOne a) (AxOne b) s = Some (np_transpose_shape s (Some order))
-       /\ moveaxis_index (AxOne a) (AxOne b) s i = np_transpose_index (Some order) i
-       /\ inb (moveaxis_index (AxOne a) (AxOne b) s i) s).
+       moveaxis_accept sa da s = Some (np_transpose_shape s (Some order))
+       /\ moveaxis_index sa da s i = np_transpose_index (Some order) i
+       /\ inb (moveaxis_index sa da s i) s).
 Proof.
-  intros a b s i Hok order. destruct (moveaxis_single (length s) a b Hok) as [E P].
-  split; [exact E|]. split; [exact P|]. intros Hi. exact (moveaxis_np_of_order (AxOne a) (AxOne b) s i E P Hi).
+  intros sa da s i H1 Hok order. destruct (moveaxis_single (length s) sa da H1 Hok) as [E P].
+  split; [exact E|]. split; [exact P|]. intros Hi. exact (moveaxis_np_of_order sa da s i E P Hi).
 Qed.
 Print Assumptions C03_moveaxis_single_axis.
 
